@@ -262,6 +262,13 @@ install_taps()
 # --------------------------------------------------------------------------
 
 
+class _Collector(list):
+    """A callable collection: ``collector(picture, video_parameters, mode)``."""
+
+    def __call__(self, p, vp, pcm):
+        self.append((p, dict(vp), pcm))
+
+
 class ValidatorResult(object):
     __slots__ = ("verdict", "exc", "pics", "reads", "tell", "headers", "decodes", "unit_codes", "explain_failure", "tell_bits")
 
@@ -316,7 +323,14 @@ def run_validator(data, tap=False):
     f = SimFile(data)
     # the validator reads every byte once, strictly in order
     f.read_budget = 4 * len(data) + 256
-    state = State(_output_picture_callback=lambda p, vp, pcm: res.pics.append((p, dict(vp), pcm)))
+    # the output callback is "any callable": half of the runs hand over a plain
+    # function, the others a callable collection object (which is falsy while
+    # it is empty)
+    if len(data) % 2:
+        state = State(_output_picture_callback=lambda p, vp, pcm: res.pics.append((p, dict(vp), pcm)))
+    else:
+        res.pics = _Collector()
+        state = State(_output_picture_callback=res.pics)
     TAP.reset()
     TAP.active = tap
     try:
